@@ -94,6 +94,9 @@ def build_harness(race=False):
     """go build always runs: it is the step that ties the checks to /repo's working tree."""
     out = "harness_race" if race else "harness"
     flags = "-race " if race else ""
+    if os.environ.get("VERIF_COVER"):
+        # statement coverage of the library by the correspondence streams (tools/coverage.sh)
+        flags += "-cover -coverpkg=github.com/jawher/mow.cli/...,./... "
     sh("cp %s/go.sum go.sum && go build -tags verif %s-o %s ." % (REPO, flags, out), cwd=HARNESS, env=GOENV)
     return os.path.join(HARNESS, out)
 
@@ -241,6 +244,8 @@ def _run_harness_shard(binary, cases, timeout_ms):
     out = {}
     todo = list(cases)
     env = dict(os.environ, VERIF_CASE_TIMEOUT_MS=str(timeout_ms), GORACE="halt_on_error=0")
+    if os.environ.get("VERIF_COVER"):
+        env["GOCOVERDIR"] = os.environ["VERIF_COVER"]
     while todo:
         data = "".join(json.dumps(c, ensure_ascii=True) + "\n" for c in todo)
         p = subprocess.run([binary], input=data, stdout=subprocess.PIPE, stderr=subprocess.PIPE,
@@ -272,7 +277,37 @@ def _run_harness_shard(binary, cases, timeout_ms):
     return out
 
 
+def _mark_conv(cases):
+    """a third of the eligible declarations (no env, hide, sbu) go through the positional convenience API
+    (cmd.BoolOpt(name, value, desc) ...), chosen by a hash of the declaration: the model does not
+    distinguish the two APIs, so any difference shows as a mismatch"""
+    import zlib
+
+    def mark(d, k):
+        h = zlib.crc32(("%s|%s|%s|%d" % (d.get("kind"), d.get("name"), d.get("t"), k)).encode("latin-1", "replace"))
+        if "conv" not in d:
+            d["conv"] = (not d.get("env") and not d.get("hide") and not d.get("sbu")) and h % 3 == 0
+            if not d.get("ptr") and d.get("kind") != "custom" and (h >> 4) % 3 == 0:
+                d["ptr"] = True      # the ...Ptr variant of either API
+
+    def walk(c, k):
+        for d in c.get("decls", []):
+            mark(d, k)
+        for sub in c.get("subs", []):
+            walk(sub, k)
+    for k, c in enumerate(cases):
+        if "root" in c:
+            walk(c["root"], k % 5)
+        elif "decls" in c:
+            for d in c["decls"]:
+                mark(d, k % 5)
+        for cc in c.get("cases", []):
+            if "root" in cc:
+                walk(cc["root"], k % 5)
+
+
 def run_impl(cases, timeout_ms=4000, race=False):
+    _mark_conv(cases)
     binary = os.path.join(HARNESS, "harness_race" if race else "harness")
     res = {}
     with ThreadPoolExecutor(NCPU) as ex:
